@@ -7,7 +7,7 @@ One request per line:
   res    = inherit  |  res <hex=idx,…|-> <hex=idx,…|-> <hex=famhex:n,…|->     (fonts, xobjects, colour spaces)
   several `page` sections = several pages, each followed by its streams
   tokens = n<rat> s<hex|-> /<hex> [ … ] z b0 b1 o<hex>
-Reply: glyphs joined by `;`, each `a b c d e f adv x0 y0 x1 y1 size <fonthex> <colour|->`, `-` for none;
+Reply: glyphs joined by `;`, each `a b c d e f adv x0 y0 x1 y1 size <fonthex> <colour|-> u0|u1`, `-` for none;
 `OUT` when the spec gives the program no meaning; `ERR …` for malformed requests / exhausted nesting budget.
 -/
 import PdfVerif.Model.Interp
@@ -187,7 +187,8 @@ def showGlyph (g : Glyph) : String :=
   let col := match g.col with
     | none => "-"
     | some c => if c.isEmpty then "empty" else ",".intercalate (c.map ratToString)
-  " ".intercalate ([a, b, c, d, e, f, g.adv, x0, y0, x1, y1, g.size].map ratToString ++ [hexOfStr g.font, col])
+  " ".intercalate ([a, b, c, d, e, f, g.adv, x0, y0, x1, y1, g.size].map ratToString ++
+    [hexOfStr g.font, col, if g.upright then "u1" else "u0"])
 
 def showGlyphs (gs : List Glyph) : String :=
   if gs.isEmpty then "-" else ";".intercalate (gs.map showGlyph)
